@@ -97,7 +97,7 @@ impl EmmyLuaEmitter {
 
     /// Write `---| "value" # description`.
     pub fn write_alias_variant(&mut self, value: &str, description: Option<&str>) {
-        match description {
+        match description.map(single_line).filter(|desc| !desc.is_empty()) {
             Some(desc) => {
                 let _ = writeln!(self.output, "---| {} # {}", quote_string(value), desc);
             }
@@ -109,7 +109,7 @@ impl EmmyLuaEmitter {
 
     /// Write `---| type # description` (for non-string union members).
     pub fn write_alias_type_variant(&mut self, ty: &str, description: Option<&str>) {
-        match description {
+        match description.map(single_line).filter(|desc| !desc.is_empty()) {
             Some(desc) => {
                 let _ = writeln!(self.output, "---| {} # {}", ty, desc);
             }
@@ -128,6 +128,12 @@ impl EmmyLuaEmitter {
     pub fn finish(self) -> String {
         self.output
     }
+}
+
+/// Fold a description into one line, for the places where it trails an annotation
+/// (`---| variant # description`) and a line break would end the comment.
+fn single_line(text: &str) -> String {
+    text.split_whitespace().collect::<Vec<_>>().join(" ")
 }
 
 /// Write `value` as a double-quoted string literal that stays one token on one line.
